@@ -79,6 +79,19 @@ def install(I):
                 raise PyRaise(SymExc(TypeError, (), origin="len")) from None
         if isinstance(v, (PyTuple, PyList)):
             return Conc(len(v.items))
+        if isinstance(v, SymDict) and v.base is None and not getattr(v, "removed", None):
+            # a dict built on this path from nothing: the number of pairwise distinct written keys
+            keys = []
+            for wk, _wkey, _wv in v.writes:
+                if not any(I.decide(wk == k2) for k2 in keys):
+                    keys.append(wk)
+            return Conc(len(keys))
+        if isinstance(v, SymDict) and v.base is not None and not v.writes and not getattr(v, "removed", None):
+            # an opaque dict: its size is an uninterpreted non-negative integer (>= 1 as soon as a key is known to be present: the
+            # membership decision adds that fact, see symdict_lookup)
+            n = fn("dict_len", V, Int)(v.base)
+            I.ctx.assume(n >= 0)
+            return SymInt(n)
         if isinstance(v, PyDict):
             return Conc(len(v.d))
         if isinstance(v, SymSeq):
